@@ -82,7 +82,8 @@ pub open spec fn wrap(n: nat, lb: Seq<u8>, t: Seq<u8>) -> Seq<u8>
 }
 
 //@trusted T4 line_writer::LineWriter<'a, W, N> with the contracts PROVED in U80: origin() = what the sink held at construction, acc() = all input accepted since (its io::Write out()), sink() = what the sink holds now; new() accepts nothing yet; write/write_all/flush keep origin, line break and `finished`; finish() = Ok leaves origin ++ wrap(N, line_break, acc) in the sink (U80 end-to-end clause).  fate() = what the sink holds once the wrapper is gone (a prophecy, fixed at construction: new() ties it to the final value of the borrowed sink)
-//@trusted T2 DROP MODEL (Verus has no drop glue): `impl Drop for LineWriter` (src/line_writer.rs:193, `if !self.panicked { let _ = self.finish(); }`, panicked is false after new/write - U80) is modelled by the explicit call finish_in_drop(): it runs finish(), RETURNS the io::Result that Drop throws away, and afterwards the wrapper is gone: sink() == fate()
+//@trusted T4 LineWriter::finish (src/line_writer.rs:84, REAL code, contract PROVED in U80): keeps origin / acc / line break; already finished: Ok at once, nothing written; otherwise Ok: the pending partial line (if any) and its line break were written, the writer is finished and the sink holds origin ++ wrap(N, line_break, acc) (U80 end-to-end clause); Err (a sink error, surfaced): not finished
+//@trusted T2 DROP MODEL (Verus has no drop glue): `impl Drop for LineWriter` (src/line_writer.rs:193, `if !self.panicked { let _ = self.finish(); }`, panicked is false after new/write/a successful finish - U80) is modelled by the explicit call finish_in_drop(): it runs finish(), RETURNS the io::Result that Drop throws away, and afterwards the wrapper is gone: sink() == fate().  After a successful finish() it writes nothing (finish returns at once when `finished`)
 #[verifier::external_body]
 #[verifier::accept_recursive_types(W)]
 #[verifier::accept_recursive_types(N)]
@@ -102,11 +103,24 @@ impl<'a, W: io::Write, N: Unsigned> LineWriter<'a, W, N> {
             (*final(w)).out() == r.fate(),
     { unimplemented!() }
     #[verifier::external_body]
+    pub fn finish(&mut self) -> (r: io::Result<()>)
+        ensures
+            final(self).origin() == old(self).origin(), final(self).acc() == old(self).acc(), final(self).lbk() == old(self).lbk(),
+            final(self).fate() == old(self).fate(),
+            old(self).fin() ==> r is Ok && final(self).fin() && final(self).sink() == old(self).sink(),
+            !old(self).fin() ==> match r {
+                Ok(_) => final(self).fin() && final(self).sink() == old(self).origin() + wrap(N::val(), lb_bytes(old(self).lbk()), old(self).acc()),
+                Err(_) => !final(self).fin(),
+            },
+    { unimplemented!() }
+    #[verifier::external_body]
     pub fn finish_in_drop(&mut self) -> (r: io::Result<()>)
         ensures
             final(self).origin() == old(self).origin(), final(self).acc() == old(self).acc(), final(self).lbk() == old(self).lbk(),
             final(self).fate() == old(self).fate(),
             !old(self).fin() && r is Ok ==> final(self).sink() == old(self).origin() + wrap(N::val(), lb_bytes(old(self).lbk()), old(self).acc()),
+            // Drop after a successful finish(): nothing is written
+            old(self).fin() ==> r is Ok && final(self).sink() == old(self).sink(),
             // the wrapper is gone
             final(self).sink() == final(self).fate(),
     { unimplemented!() }
@@ -136,6 +150,7 @@ pub mod general_purpose {
 //@trusted T2 base64 0.22 write::EncoderWriter<E, W> is an UNINTERPRETED streaming encoder: consumed = all input bytes accepted so far, base = what the delegate had accepted at construction; write(buf) = Ok(n) accepts the first n <= |buf| bytes (n may be 0 while encoded output is still pending - base64 issue 148), Err accepts nothing; the delegate is used only through io::Write (evolves); flush accepts nothing
 //@trusted T3 PROGRESS ASSUMPTION on the encoder: a write() that accepts nothing of a non-empty buffer - Ok(0) or Err(Interrupted) - strictly decreases a finite stall budget (it pushes pending output to the delegate; a delegate that never accepts anything violates this)
 //@trusted T2 DROP MODEL (Verus has no drop glue): `impl Drop for EncoderWriter` (`if !self.panicked { let _ = self.write_final_leftovers(); }`) is modelled by the explicit call finish_in_drop(): it RETURNS the io::Result that Drop throws away; on Ok the delegate has accepted exactly base ++ b64_encode(consumed) ("output == b64(all input) after finish/drop")
+//@trusted T2 base64 0.22 write::EncoderWriter::finish(&mut self) -> io::Result<W> (encoder_writer.rs: write_final_leftovers, then `delegate.take()`): on Ok the remaining 1-2 input octets were encoded with padding and written - the delegate has accepted exactly base ++ b64_encode(consumed) - and the delegate is handed back (the encoder is empty afterwards: its Drop writes nothing); on Err the sink error is reported (the delegate stays; only `evolves` is known).  Accepts no input
 pub mod base64 {
     pub mod write {
         use super::super::*;
@@ -168,6 +183,13 @@ pub mod base64 {
                 ensures
                     evolves(old(self).delegate, final(self).delegate), final(self).base@ == old(self).base@,
                     final(self).consumed@ == old(self).consumed@, r is Ok ==> final(self).flushed@,
+            { unimplemented!() }
+            #[verifier::external_body]
+            pub fn finish(&mut self) -> (r: io::Result<W>)
+                ensures
+                    evolves(old(self).delegate, final(self).delegate), final(self).base@ == old(self).base@,
+                    final(self).consumed@ == old(self).consumed@,
+                    r matches Ok(w) ==> w == final(self).delegate && w.out() == old(self).base@ + b64_encode(old(self).consumed@),
             { unimplemented!() }
             #[verifier::external_body]
             pub fn finish_in_drop(&mut self) -> (r: io::Result<()>)
